@@ -638,6 +638,8 @@ func reopenArgs(s *sState, how string) ([]string, sOpts) {
 		roots = roots[:len(roots)-1]
 	case "dpad":
 		o.Dpad++
+	case "dpad_far": // the requested data offset lies beyond the end of every file of the model
+		o.Dpad += 200000
 	case "version":
 		o.V1 = !o.V1
 	}
